@@ -32,13 +32,16 @@ Proof.
 Qed.
 Print Assumptions C16_failsafe.
 
-(* complete behaviour of the translated orders: a planted fault that is hit raises
-   with the target untouched, otherwise the save terminates normally and the
-   target holds the document; never Stuck *)
+(* complete behaviour of the translated orders, whether the target is the resource's own URI or
+   an `output=` URI object the caller keeps: a planted fault that is hit (in the traversal, in the
+   namespace step, in the encoder) raises with the target untouched, otherwise the save terminates
+   normally and a reader finds the whole document in the target as soon as save returns (the
+   written stream is flushed, not merely left to uri.close_stream()); never Stuck *)
 Theorem C16_save_behaviour :
   forall j fault old,
     run_save j save_order_xmi fault old =
       (if hits_build j fault then (Raised, old)
+       else if hits_ns j fault then (Raised, old)
        else if hits_encode j fault then (Raised, Some [])
        else (Done, Some (j_new j))) /\
     run_save j save_order_json fault old =
@@ -71,20 +74,42 @@ Theorem C16_idempotent :
 Proof. exact save_idempotent. Qed.
 Print Assumptions C16_idempotent.
 
-(* recorded witness: the order of the code before the repair (open, then build)
+(* recorded witness: the order of the code before the first repair (open, then build)
    empties the target on the first unserialisable element *)
 Example C16_legacy_order_truncates :
-  run_save {| j_nbuild := 1; j_nenc := 0; j_new := [9] |} legacy_order (Some 0%nat) (Some [1; 2; 3])
+  run_save {| j_nbuild := 1; j_nenc := 0; j_nns := 0; j_own := true; j_new := [9] |}
+           legacy_order (Some 0%nat) (Some [1; 2; 3])
   = (Raised, Some []).
 Proof. vm_compute. reflexivity. Qed.
 
-(* non-vacuity: a fault that raises, a fault-free save, a uuid-mode save that assigns one id *)
+(* recorded witnesses of two near-misses: the target opened before the namespace step; the written
+   stream not flushed when the target is an `output=` URI kept by the caller *)
+Example C16_open_before_namespace_step_truncates :
+  run_save {| j_nbuild := 2; j_nenc := 0; j_nns := 1; j_own := true; j_new := [9] |}
+           [SBuild; SOpen; SNs; SBuild; SWrite; SFlush; SClose] (Some 2%nat) (Some [1; 2; 3])
+  = (Raised, Some []).
+Proof. vm_compute. reflexivity. Qed.
+
+Example C16_unflushed_output_is_empty :
+  run_save {| j_nbuild := 2; j_nenc := 2; j_nns := 0; j_own := false; j_new := [9] |}
+           [SBuild; SEncode; SOpen; SWrite; SClose] None (Some [1; 2; 3])
+  = (Done, Some []).
+Proof. vm_compute. reflexivity. Qed.
+
+(* non-vacuity: faults that raise (encoder; namespace step; absent target), a fault-free save to a
+   kept output URI, a uuid-mode save that assigns one id *)
 Example C16_witness :
-  run_save {| j_nbuild := 3; j_nenc := 3; j_new := [7; 7] |} save_order_json (Some 4%nat) (Some [1; 2; 3])
+  run_save {| j_nbuild := 3; j_nenc := 3; j_nns := 0; j_own := true; j_new := [7; 7] |}
+           save_order_json (Some 4%nat) (Some [1; 2; 3])
     = (Raised, Some [1; 2; 3]) /\
-  run_save {| j_nbuild := 3; j_nenc := 0; j_new := [7; 7] |} save_order_xmi (Some 2%nat) None
+  run_save {| j_nbuild := 3; j_nenc := 0; j_nns := 1; j_own := true; j_new := [7; 7] |}
+           save_order_xmi (Some 3%nat) (Some [1; 2; 3])
+    = (Raised, Some [1; 2; 3]) /\
+  run_save {| j_nbuild := 3; j_nenc := 0; j_nns := 1; j_own := true; j_new := [7; 7] |}
+           save_order_xmi (Some 2%nat) None
     = (Raised, None) /\
-  run_save {| j_nbuild := 3; j_nenc := 0; j_new := [7; 7] |} save_order_xmi None (Some [1; 2; 3])
+  run_save {| j_nbuild := 3; j_nenc := 0; j_nns := 1; j_own := false; j_new := [7; 7] |}
+           save_order_xmi None (Some [1; 2; 3])
     = (Done, Some [7; 7]) /\
   save_model true (fun n => 100 + Z.of_nat n) 0
     [ {| so_id := Some 5; so_obs := [1] |}; {| so_id := None; so_obs := [2; 3] |} ]
